@@ -70,13 +70,15 @@ def r2(ctx):
     clo = closure_of(ctx, ch[2][1])
     cc = list(clo.calls(r'slice::concat$'))
     good = False
+    if len(cc) != 1:
+        raise AnchorMissing('the concatenation of the two neighbouring tokens in the initial-candidate closure (found %d)' % len(cc))
     if len(cc) == 1:
         arr = core(sym(clo, cc[0].args[0]))
         good = match(arr, ('agg', 'array', '', (('field', ('field', ('arg', 2, ANY), 0), 1), ('field', ('field', ('arg', 2, ANY), 1), 1))))
     ctx.require(good, clo, 'initial-concat', 'initial candidate bytes = concat(left bytes, right bytes)', None,
                 cc[0].span if cc else None)
     # collected token ids: flatten of token_ids appended once per word
-    ext = [t for t in body.calls(r'Extend>::extend$')]
+    ext = [t for t in body.calls(r'Extend>::extend$') if t.args[0].place is not None and 'Vec<u32>' in body.local_ty(t.args[0].place.local)]
     good = len(ext) == 1 and has(sym(body, ext[0].args[1]), Call('Iterator::flatten'))
     ctx.require(good, body, 'emit', 'the live token ids of the word are appended in position order (flatten of the id vector)', None)
 
